@@ -127,15 +127,18 @@ def origOf? (j : Json) (s : Server) : Option Obj :=
   | .str "server" => s.obj
   | j => objOf? j
 
-def runCycles (daemon sub : Bool) : List Json → Option (List Fn) → Server → List Json → Option (List Json × Server × Option (List Fn))
-  | [], mem, s, acc => some (acc.reverse, s, mem)
-  | c :: rest, mem, s, acc => do
+/-- `prev`: the uid the memory belongs to. `process_resource_event` keeps its memory per uid (`recalled`); a
+    daemon/timer runner keeps its own patch object whatever happens to the name. -/
+def runCycles (daemon sub : Bool) : List Json → Option Nat → Option (List Fn) → Server → List Json → Option (List Json × Server × Option (List Fn))
+  | [], _, mem, s, acc => some (acc.reverse, s, mem)
+  | c :: rest, prev, mem, s, acc => do
       let fields ← kvsOf? (← jField? c "fields")
       let fns ← fnsOf? (← jField? c "fns")
       let orig ← origOf? (← jField? c "orig") s
       let env ← envOf? c
+      let mem := if daemon then mem else recalled prev orig mem
       let (r, mem') := cycleOf daemon sub mem fields fns orig env s
-      runCycles daemon sub rest mem' r.server
+      runCycles daemon sub rest (some orig.uid) mem' r.server
         (Json.mkObj [("result", resultJson r), ("memory", optFnsJson mem')] :: acc)
 
 /-- replay of an interleaving of several daemons/timers of one object through `dstep`. The environment is not
@@ -177,7 +180,7 @@ def handle : DrvHandler := fun op args =>
       let s ← serverOf? (← jField? j "server")
       let mem ← jOpt? fnsOf? (← jField? j "memory")
       let cs ← jArr? (← jField? j "cycles")
-      let (outs, s', mem') ← runCycles daemon sub cs mem s []
+      let (outs, s', mem') ← runCycles daemon sub cs none mem s []
       some (ok (Json.mkObj [("cycles", .arr outs.toArray), ("server", serverJson s'), ("memory", optFnsJson mem')]))
   | "C08.drun", [j] => do
       let sub ← jBool? (← jField? j "sub")
